@@ -29,13 +29,33 @@ def main(argv):
             if not os.path.isdir(out):
                 continue
             for v in ('a', 'b', 'c'):
-                fin = os.path.join(out, 'final_%s.txt' % v)
-                if not os.path.exists(fin):
+                # own_X.txt: the latest evaluation against the check of the patch's own property (eval_all_own.py); final_X.txt: an
+                # evaluation against all twenty checks (possibly made with an earlier state of the checks).  The own-property verdict
+                # and the confirmation come from the latest; the other checks' verdicts from the full evaluation where there is one.
+                r, cross = None, None
+                for fn, kind in (('own_%s.txt' % v, 'own'), ('final_%s.txt' % v, 'full')):
+                    fp = os.path.join(out, fn)
+                    if not os.path.exists(fp):
+                        continue
+                    js = [ln for ln in open(fp).read().splitlines() if ln.startswith('JSON ')]
+                    if not js:
+                        continue
+                    d = json.loads(js[0][5:])
+                    if not d.get('checks'):
+                        continue
+                    if kind == 'own':
+                        r = d
+                    else:
+                        cross = d
+                if r is None and cross is None:
                     continue
-                js = [ln for ln in open(fin).read().splitlines() if ln.startswith('JSON ')]
-                if not js:
-                    continue
-                r = json.loads(js[0][5:])
+                if r is None:
+                    r = cross
+                elif cross is not None:
+                    merged = dict(cross['checks'])
+                    merged.update(r['checks'])
+                    r = dict(r, checks=merged)
+                r['other_checks_evaluated'] = cross is not None
                 name = '%s-%s%s' % (cid, v, '' if label == 'r1' else '-' + label)
                 demo = r.get('demo') or {}
                 confirmed = bool(r.get('applies') and r.get('tests_pass') and demo.get('clean_exit') == 0
@@ -84,12 +104,14 @@ def main(argv):
              'Each seeded defect was written by an independent sub-agent that saw only the property text and a scratch worktree.',
              'Kept only when confirmed: applies to /repo HEAD, the 199 repository tests still pass with it, its demonstration',
              'program passes on the unchanged tree and fails with the patch. "own" = the check of the property it was written',
-             'against fires; other checks firing are listed too.', '',
+             'against fires (latest state of the checks); other checks firing are listed where the patch was also run against all twenty',
+             'checks (possibly at an earlier state of the checks - they only grew since), "(own check only)" where it was not.', '',
              '| seeded defect | confirmed | own check fires | all checks that fire | what it changes | needs |',
              '|---|---|---|---|---|---|']
     for name, cid, confirmed, fired, odd, what, needs, r in rows:
-        lines.append('| %s | %s | %s | %s%s | %s | %s |' % (name, 'yes' if confirmed else 'NO', 'yes' if cid in fired else '**no**',
-                                                         ' '.join(fired) or '-', (' (other exit: %s)' % odd) if odd else '',
+        lines.append('| %s | %s | %s | %s%s%s | %s | %s |' % (name, 'yes' if confirmed else 'NO', 'yes' if cid in fired else '**no**',
+                                                         ' '.join(fired) or '-', '' if r.get('other_checks_evaluated') else ' (own check only)',
+                                                         (' (other exit: %s)' % odd) if odd else '',
                                                          what.replace('|', '/'), needs.replace('|', '/')))
     n_conf = sum(1 for r in rows if r[2])
     n_own = sum(1 for r in rows if r[2] and r[1] in r[3])
